@@ -18,7 +18,7 @@ for root, dirs, files in os.walk(src):
         rel = os.path.normpath(os.path.join(rel_root, f))
         if any(rel.startswith(s) or ("/" + s) in ("/" + rel) for s in SKIP_DIRS) or rel.endswith(".pyc"):
             continue
-        if rel in ("AGENT_TASK.md", "PROOF_TASK.md", "C19_statements.lean"):
+        if rel in ("AGENT_TASK.md", "PROOF_TASK.md", "C19_statements.lean") or rel.startswith("proposed_fix"):
             continue
         a, b = os.path.join(src, rel), os.path.join(dst, rel)
         if not os.path.exists(b):
